@@ -1,28 +1,29 @@
 #!/bin/bash
-# For every seeded change that touches chain/manager.go: regenerate the control skeleton from the
-# changed source (scratch worktree) and report which source-tie modules (Props/*Src.lean) stop
-# checking.  The committed Extracted/ChainSkel.lean is restored afterwards.
+# For every seeded change that touches chain/manager.go or chain/db.go: regenerate the control
+# skeletons from the changed source (scratch worktree, scratch output directory) and report which
+# source-tie modules (Props/*Src.lean) stop checking against them.  Nothing in /verif is modified:
+# each module is checked as ONE scratch file = regenerated skeletons + the module's own text.
 cd /verif
-S=/tmp/skt; rm -rf $S; mkdir -p $S/out
+S=$(mktemp -d /tmp/skt.XXXXXX); mkdir -p $S/out $S/orig
 git -C /repo worktree add --detach $S/wt HEAD -q
-cp lean/Verif/Extracted/ChainSkel.lean $S/orig.lean; cp lean/Verif/Extracted/DBSkel.lean $S/origdb.lean
-for d in /verif/seeded/*; do
+./harness/bin/vh srcfacts -repo /repo -out $S/orig >/dev/null 2>&1
+strip() { grep -v '^import ' "$1"; }
+for d in /verif/seeded/* ${EXTRA_DIRS}; do
   id=$(basename $d)
+  [ $# -gt 0 ] && { m=0; for p in "$@"; do case $id in $p*) m=1;; esac; done; [ $m = 1 ] || continue; }
   grep -q "chain/manager.go\|chain/db.go" $d/patch.diff 2>/dev/null || continue
   git -C $S/wt checkout -q -- .
   if ! git -C $S/wt apply $d/patch.diff 2>/dev/null; then echo "$id patch-does-not-apply"; continue; fi
   ./harness/bin/vh srcfacts -repo $S/wt -out $S/out >/dev/null 2>&1
-  if cmp -s $S/out/ChainSkel.lean $S/orig.lean && cmp -s $S/out/DBSkel.lean $S/origdb.lean; then echo "$id skeleton-unchanged"; continue; fi
-  cp $S/out/ChainSkel.lean lean/Verif/Extracted/ChainSkel.lean; cp $S/out/DBSkel.lean lean/Verif/Extracted/DBSkel.lean
+  if cmp -s $S/out/ChainSkel.lean $S/orig/ChainSkel.lean && cmp -s $S/out/DBSkel.lean $S/orig/DBSkel.lean; then echo "$id skeleton-unchanged"; continue; fi
   r=""
   for m in C01Src C03Src C04Src C19Src C17Src; do
-    if ! (cd lean && lake build Verif.Props.$m >$S/b.log 2>&1); then
-      r="$r $m($(grep -o 'Verif/Props/[A-Za-z0-9]*.lean:[0-9]*' $S/b.log | sort -u | sed 's/.*://' | tr '\n' ',' ))"
+    { echo "import Verif.Lemmas.SkelTok"; strip $S/out/ChainSkel.lean; strip $S/out/DBSkel.lean; strip lean/Verif/Props/$m.lean; } > $S/X_$m.lean
+    if ! (cd lean && lake env lean $S/X_$m.lean >$S/b.log 2>&1); then
+      r="$r $m($(grep -c 'error' $S/b.log) errors)"
     fi
   done
   echo "$id skeleton-changed broken:[$r ]"
 done
-cp $S/orig.lean lean/Verif/Extracted/ChainSkel.lean; cp $S/origdb.lean lean/Verif/Extracted/DBSkel.lean
 git -C /repo worktree remove --force $S/wt
-(cd lean && lake build Verif.Props.C01Src Verif.Props.C03Src Verif.Props.C04Src Verif.Props.C19Src Verif.Props.C17Src 2>&1 | tail -1)
 rm -rf $S
